@@ -139,7 +139,9 @@ package kgo
 // field is that minus first offset and itself, magic 2, attributes carry the transactional bit, lastOffsetDelta is
 // the record count minus one, the two timestamps are the first and first+maxDelta, producer id / epoch are the
 // request's, the sequence is the batch's (0 without idempotence), the record count is the number of records, and
-// the i-th record is serialized with offset delta i. (The compression rewrite and the CRC are not covered.)
+// the i-th record is serialized with offset delta i; after compression the three already written fields are
+// rewritten at their own positions with the adjusted values (the two lengths keep their distance of 12), and the
+// CRC of everything after the CRC field is written into the CRC field.
 //@ func (b seqRecBatch) appendTo(in []byte, version int16, producerID int64, producerEpoch int16, transactional bool, compressor Compressor) (dst []byte, m ProduceBatchMetrics)
 //@   prop C18
 //@   abstract call appendTo
@@ -157,6 +159,11 @@ package kgo
 //@   site call AppendInt32#5 assert [sequence] arg1 == ite(producerID < 0, 0, b.seq)
 //@   site call AppendArrayLen#0 assert [record-count] arg1 == len(b.recBatch.records)
 //@   site call appendTo#0 assert [ith-record-at-offset-delta-i] arg2 == int32(i)
+//@   site call AppendInt32#6 assert [bytes-length-rewritten-at-its-place] !flexible && len(arg0) == nullableBytesLenAt && sameorigin(arg0, dst) && arg1 == nullableBytesLen && nullableBytesLen - batchLen == 12
+//@   site call AppendInt32#7 assert [batch-length-rewritten-at-its-place] len(arg0) == batchLenAt && sameorigin(arg0, dst) && arg1 == batchLen && nullableBytesLen - batchLen == 12
+//@   site call AppendInt16#2 assert [attributes-rewritten-at-their-place] len(arg0) == attrsAt && sameorigin(arg0, dst) && arg1 == b.recBatch.attrs
+//@   site call Checksum#0 assert [crc-covers-everything-after-the-crc-field] arg0 == dst[crcStart+4:]
+//@   site call AppendInt32#8 assert [crc-written-at-its-place] len(arg0) == crcStart && sameorigin(arg0, dst) && arg1 == int32($Checksum0)
 
 // produceRequest.AppendTo: the request-level fields and the per-batch arguments are the request's own; the
 // encoding chosen for topics, arrays and batches is the one of the request's version (message sets below v3, topic
